@@ -381,6 +381,25 @@ pub fn generate(level: usize) -> Vec<Scenario> {
         ];
         out.extend(pairs("F9-fragmented", &cfg, &setup, &alpha));
     }
+    // steal from a fragmented tree of a lower class: counter taken, lower allocation fails, undo
+    {
+        let cfg = Config::new(2 * TREE_FRAMES, s1.clone(), InitMode::AllocAll);
+        let mut setup = vec![p(&s1, 0, HUGE_ORDER, None)];
+        for row in [1usize, 3, 5, 7] {
+            // class 0 without slot: the tree is demoted to class 0
+            setup.push(ga(&s1, 6, None, row * 64));
+        }
+        let steal7 = |local| Op::Get { order: 7, class: 1, local, target: None };
+        let alpha = vec![
+            a(steal7(Some(0))),
+            a(steal7(None)),
+            a(Op::Get { order: 6, class: 1, local: Some(0), target: None }),
+            a(g(&s1, 6, Some(0))),
+            a(g(&s1, 0, None)),
+            u(p(&s1, 64, 6, None)),
+        ];
+        out.extend(pairs("F9-steal-fragmented", &cfg, &setup, &alpha));
+    }
     // exhaustion fallbacks: almost full allocator with reservations in two slots
     {
         let cfg = Config::new(2 * TREE_FRAMES, s2.clone(), InitMode::AllocAll);
